@@ -106,7 +106,7 @@ PROPS["C08"] = {
 
 PROPS["C02"] = {
     "level": "proof",
-    "verus": [{"unit": "recognisers", "rlimit": 200}, {"unit": "decoder", "rlimit": 300}, {"unit": "decoder_inplace", "rlimit": 300}, {"unit": "serde_access", "rlimit": 200}],
+    "verus": [{"unit": "recognisers", "rlimit": 200}, {"unit": "decoder", "rlimit": 300}, {"unit": "decoder_inplace", "rlimit": 300}, {"unit": "serde_access", "rlimit": 200}, {"unit": "typed_de", "rlimit": 300}],
     "kani": K_STRTAB + K_WS,
     "trusted_base": [T1, T2, T3, T4, T6, T8, VSTD, KANI, PERR,
                      "UTF-8 prevalidation (simdutf8) in Read::new_in is T4",
@@ -114,7 +114,7 @@ PROPS["C02"] = {
                      "serde SeqAccess::next_element_seed / MapAccess::next_key_seed / next_value_seed / end_map / end_seq: the comma-colon machine is proved to start the (arbitrary) element deserializer only at the grammar-prescribed position and to reject every other separator situation; the element deserializers themselves are programs (C04) and the per-type entry points of `impl Deserializer` are not under contract",
                      "the in-place twin parse_dom/parse_value/parse_array/parse_object (DOM whole-input path) is proved in unit decoder_inplace under T9; the reader contract T1 is assumed for PaddedSliceRead (raw pointers, 64 bytes of padding)", T9],
     "level_text": "Verus proof that the fully-decoding parsers — copy-out parse_value2/parse_array2/parse_object2 and in-place parse_dom/parse_value/parse_array/parse_object (the from_str::<Value> path) — succeed only on, and consumes exactly, the grammar it is specified to consume, that this grammar followed by the trailing check is exactly RFC 8259 (theorem_text_l_is_rfc8259), and — for every input and length — that the validate-and-skip recogniser (skip_one, skip_array, skip_object, skip_string, skip_escaped_chars, skip_number, parse_literal, skip_space incl. its SIMD cache, parse_trailing) returns Ok iff the RFC 8259 grammar (specs/json_grammar.rs) matches, with the exact end offset; the table/lane contracts it assumes are discharged by Kani",
-    "level_note": "validate-and-skip half through the checked reader `Read`; both decoding drivers at parser level (string/number leaves through assumed or separately proved contracts); the serde per-type visitor layer is outside",
+    "level_note": "validate-and-skip half through the checked reader `Read`; both decoding drivers at parser level (string/number leaves through assumed or separately proved contracts); the entry point from_trait (4 GB guard, `nothing but whitespace after what the target type consumed`, deferred UTF-8 verdict) and the self-describing dispatch deserialize_any in unit typed_de; the per-type visitors themselves are programs (C04)",
     "technique": TECH_VK,
     "explanation": "skip_one Ok <=> value_end(data, idx) is Some; parse_trailing Ok <=> only whitespace left",
 }
